@@ -74,16 +74,16 @@ type gen struct {
 	opts  TypeOpts
 	names map[string]bool
 
-	enums    []*Decl // root enums
-	keyables []*Decl // named types usable as JSON map keys (ids, named strings/ints, int/string enums)
-	nameds   []*Decl // every other root named non-struct, non-union type
-	unions   []*Decl
-	uconts   []*Decl // named slices / maps of unions
-	structs  []*Decl // root structs usable as field types
-	subTypes []*Decl // sub-package types usable from the root
-	generics []*Decl
-	insts    []*TExpr // generic instantiations usable as field types
-	subNames map[string]bool
+	enums         []*Decl // root enums
+	keyables      []*Decl // named types usable as JSON map keys (ids, named strings/ints, int/string enums)
+	nameds        []*Decl // every other root named non-struct, non-union type
+	unions        []*Decl
+	uconts        []*Decl // named slices / maps of unions
+	structs       []*Decl // root structs usable as field types
+	subTypes      []*Decl // sub-package types usable from the root
+	generics      []*Decl
+	insts         []*TExpr // generic instantiations usable as field types
+	subNames      map[string]bool
 	usedDashComma bool
 }
 
@@ -1012,6 +1012,17 @@ func (g *gen) makeStructs() {
 			g.p.Feature("map-keyed-by-enum-with-duplicate-values")
 			break
 		}
+	}
+	if g.opts.IgnoreAlone && len(g.unions) > 0 {
+		// a struct whose ONLY union field is tagged gomacro:"ignore" (no json:"-"): encoding/json still
+		// writes the field, so the struct needs its wrapper like any other
+		un := g.unions[g.r.Intn(len(g.unions))]
+		d := g.add(&Decl{Name: g.fresh("Audit" + g.pick(typeStems)), Kind: DStruct, Fields: []*Field{
+			{Name: "Seq", Type: Basic("int")},
+			{Name: "Payload", Type: Ref(un), Tag: `gomacro:"ignore"`},
+		}})
+		g.structs = append(g.structs, d)
+		g.p.Feature("field:only-union-field-gomacro-ignore-alone")
 	}
 	if g.opts.PtrFields && len(g.structs) > 0 {
 		// pointer fields (accepted by the Go generators only): to a leaf struct, to a basic,
